@@ -1,5 +1,5 @@
 use serde_yaml::{Mapping, Sequence, Value};
-use std::collections::HashMap;
+use indexmap::IndexMap;
 
 /// An indexed annotation set.
 #[derive(Clone, Debug, PartialEq, Eq, Default)]
@@ -101,7 +101,7 @@ impl Annotation {
             })
     }
 
-    pub fn get_props(&self, s: &str) -> Option<HashMap<String, String>> {
+    pub fn get_props(&self, s: &str) -> Option<IndexMap<String, String>> {
         self.props
             .get(Value::String(s.to_owned()))
             .and_then(Value::as_mapping)
